@@ -362,6 +362,10 @@ FLOAT_TOL = 1e-9
 
 
 def _tol(lo, hi):
+    if lo == hi:
+        # a degenerate range names ONE value: every interpolation formula the library uses
+        # (x * (max - min) + min, (max - min) / k + min) is exact there, so no tolerance applies
+        return 0.0
     return FLOAT_TOL * max(1.0, abs(lo), abs(hi))
 
 
